@@ -24,7 +24,9 @@ PROP = "C07"
 WORK = os.path.join(vlib.OUT, "c07")
 BATCH = 200
 NPAR = max(2, min(12, vlib.NCPU - 2))
-RUN_TIMEOUT = 40
+RUN_TIMEOUT = 40          # expression files
+STMT_TIMEOUT = 12         # statement files (a wrong compiler easily produces endless loops)
+MAX_ISOLATE = 60          # run-time failures isolated per job before the rest of the failing batches is only counted
 
 ENGINES = {
     # (name, options before the source file, execution option: everything after -e? is passed to the compiled program)
@@ -233,9 +235,9 @@ def render_file(cases, ids):
     L.append("int main(void) {")
     for c, i in zip(cases, ids):
         if fam == "stmt":
-            L.append("  printf(\"%d S\"); { int r = c%d(); printf(\" ret=%%d\\n\", r); }" % (i, i))
+            L.append("  printf(\"%d S\"); { int r = c%d(); printf(\" ret=%%d\\n\", r); } fflush(stdout);" % (i, i))
         else:
-            L.append("  c%d();" % i)
+            L.append("  c%d(); fflush(stdout);" % i)
     L.append("  printf(\"END\\n\");")
     L.append("  return %d;" % (len(cases) % 50 + 3))
     L.append("}")
@@ -272,12 +274,13 @@ def run_engines(c2m, engines, cases, ids, tag, extra_engines=(), keep=False):
         f.write(render_file(cases, ids))
     want_rc = len(cases) % 50 + 3
     res = {}
+    tmo = STMT_TIMEOUT if cases[0]["fam"] == "stmt" else RUN_TIMEOUT
     exe = fn[:-2] + ".gcc"
     rc, o, e = vlib.sh(["gcc", "-std=c11", "-O0", "-w", fn, "-o", exe], timeout=RUN_TIMEOUT)
     if rc != 0:
         res["gcc"] = ("reject", {}, e)
     else:
-        rc, o, e = vlib.sh([exe], timeout=RUN_TIMEOUT)
+        rc, o, e = vlib.sh([exe], timeout=tmo)
         got, done = parse_out(o)
         res["gcc"] = ("ok" if rc == want_rc and done else "timeout" if rc == -9 else "rc(%d)" % rc, got, e[-300:])
         if not keep:
@@ -290,7 +293,7 @@ def run_engines(c2m, engines, cases, ids, tag, extra_engines=(), keep=False):
         if callable(cmd):
             res[name] = cmd(fn, want_rc)
             continue
-        rc, o, e = vlib.sh([c2m] + cmd + [fn, eng[2]], timeout=RUN_TIMEOUT)
+        rc, o, e = vlib.sh([c2m] + cmd + [fn, eng[2]], timeout=tmo)
         got, done = parse_out(o)
         if rc == want_rc and done:
             st = "ok"
@@ -339,6 +342,13 @@ def diff_fields(ctx, exp, got):
     return out
 
 
+def complete(c, got):
+    """did the program finish printing this case?"""
+    if c["fam"] == "stmt":
+        return bool(got.get("S")) and got["S"][-1].startswith("ret=")
+    return all(ctx in got for ctx in expected(c))
+
+
 SA_RE = re.compile(r'"c(\d+)"')
 
 
@@ -374,8 +384,26 @@ def judge(c2m, engines, cases, tag, stats, extra_engines=()):
                                     named.add(int(m))
                                     sa_fail[int(m)].add(n)
                     fresh = [i for i, c in items if i in named and not c.get("_nosa")]
+                    # a crash or a time-out at run time: the culprit is the first case whose output is incomplete
+                    culprit = None
+                    if not fresh and len(items) > 1:
+                        for n in whole:
+                            if res[n][0] != "reject":
+                                for i, c in items:
+                                    if not complete(c, res[n][1].get(i, {})):
+                                        culprit = (i, c) if culprit is None or i < culprit[0] else culprit
+                                        break
                     if fresh:
                         nxt.append([(i, dict(c, _nosa=True) if i in named else c) for i, c in items])
+                    elif culprit is not None:
+                        stats.cnt["runtime_failures_isolated"] += 1
+                        if stats.cnt["runtime_failures_isolated"] > MAX_ISOLATE:
+                            # the compiler under test hangs or crashes over and over: report what is isolated, count the rest
+                            stats.cnt["cases_not_examined_after_repeated_runtime_failures"] += len(items) - 1
+                            nxt.append([culprit])
+                        else:
+                            nxt.append([culprit])
+                            nxt.append([x for x in items if x[0] != culprit[0]])
                     elif len(items) > 1:
                         h = len(items) // 2
                         nxt += [items[:h], items[h:]]
